@@ -352,6 +352,9 @@ void Exec::op_c07(const Op& op) {
     Footprint f = measure_footprint();
     // regions whose munmap the shim itself refused are expected to remain
     size_t excuse = 0; { static vf_region_t regs[8192]; size_t n = vf_regions(regs, 8192); for (size_t i = 0; i < n; i++) for (auto& ru : refused_unmaps) if (regs[i].addr < ru.first + ru.second && ru.first < regs[i].addr + regs[i].len && regs[i].len > 64*KiB) { excuse++; break; } }
+    bool other_subproc = (m.subprocs[0] != nullptr || m.subprocs[1] != nullptr);   // memory left in a sub-process without threads can only be released by a thread of that sub-process
+    if (!other_subproc && !ever_faulted && opt_purge_delay >= 0 && opt_purge_decommits && f.arena_resident > 64) fail_now("arena-still-committed", "op#%ld after free-all and a forced collect %zu pages inside arenas are still resident (a freed segment was not released?)", opi, f.arena_resident);
+    if (other_subproc) return;
     if (f.big_outside > excuse) fail_now("not-given-back", "op#%ld after recovery, free-all and a forced collect %zu non-arena region(s) are still mapped (%zu explained by refused munmap), first [%p,+%zu)", opi, f.big_outside, excuse, (void*)f.first_big, f.first_big_len);
     return;
   }
